@@ -54,6 +54,11 @@ package kademlia
 //@   noframe
 //@   ghostvar responded = false
 //@   ghostvar closer = false
+//@   ghostvar valid = false
+//@   ensures [validated] !ghost(valid) ==> res.Value == old(res.Value) && res.From == old(res.From)
+//@   ensures [from] res.From == old(res.From) || res.From == node.ID
+//@   after call Validate:
+//@     set valid = res0
 //@   ensures [responded] res.NumResponded == old(res.NumResponded) + (ghost(responded) ? 1 : 0)
 //@   ensures [closest] ghost(responded) && (old(res.NumResponded) == 0 || ghost(closer)) ==> res.Closest == node.ID
 //@   ensures [keep] !(ghost(responded) && (old(res.NumResponded) == 0 || ghost(closer))) ==> res.Closest == old(res.Closest)
